@@ -11,6 +11,7 @@ Rewrite rules (each application is counted and reported):
   R8 `&X[i]` / `X[i]` through a one-line `impl Index` whose body is `&self.0[index]` -> `X.0[i]`  (body text is checked)
   R11 "literal".into() / .to_string() / .to_owned() -> String::new()   (error-message text only)
   R12 `call(..).map(Type::Ctor)` on a Result -> `match call(..) { Ok(v) => Ok(Type::Ctor(v)), Err(e) => Err(e) }`   (same value)
+  R13 `debug!(..);` (log crate) statements are dropped
   R10 `&s[a..b]` on a slice -> vstd::slice::slice_subrange(s, a, b)   (same value; Verus has no range-index syntax)
   R9 `..` rest patterns / field shorthands are kept; `as usize`/`as i32` casts are kept (Verus checks them)
 Anything else unsupported => Undecided (exit 2), never an alarm."""
@@ -95,6 +96,10 @@ def _rewrite(body, rules, counts):
         body, n = re.subn(r"\b((?:\w+(?:::\w+)*)(?:\.\w+)?\([^()]*\))\.map\(\s*([A-Z]\w*(?:::\w+)+)\s*\)",
                           r"(match \1 { Ok(v) => Ok(\2(v)), Err(e) => Err(e) })", body)
         cnt("R12", n)
+    if "R13" in rules:
+        # log::debug!(..) statements have no effect on any property
+        body, n = re.subn(r"\bdebug!\((?:[^()]|\((?:[^()]|\([^()]*\))*\))*\);", "", body)
+        cnt("R13", n)
     if "R7" in rules:
         body, n = re.subn(r"\(\s*([^()]+?)\s*\.\.\s*\(([^()]+(?:\([^()]*\)[^()]*)*)\)\s*\)\s*\.contains\(\s*&\s*(\w+)\s*\)",
                           r"((\1) <= \3 && \3 < (\2))", body)
@@ -236,7 +241,7 @@ def build_unit(scratch, name, unit):
     counts = {}
     parts = ["// GENERATED on every run by /verif/lib/verus_engine.py from the working tree – do not edit\n",
              "#![allow(unused_imports, dead_code, unused_variables, unused_mut, unused_parens)]\n",
-             "use vstd::prelude::*;\n", "use vstd::slice::slice_subrange;\n", "verus! {\n"]
+             "use vstd::prelude::*;\n", "use vstd::slice::slice_subrange;\n", "use std::sync::Arc;\n", "use vstd::std_specs::iter::IteratorSpec;\n", "verus! {\n"]
     prelude = open(os.environ.get("VERIF_PRELUDE") or os.path.join(VERIF, "verus", "prelude.rs")).read()
     for sec in unit.get("prelude_sections", []):
         sm = re.search(r"//\s*@section %s\n(.*?)//\s*@end" % re.escape(sec), prelude, re.S)
@@ -265,6 +270,11 @@ def build_unit(scratch, name, unit):
                     raise Undecided("lost anchor in enum %s: %r" % (it["name"], a))
                 et = et.replace(a, b)
             parts.append(it.get("attrs", "") + et + "\n")
+        elif it["kind"] == "const":
+            cm = re.search(r"^[ \t]*(?:pub(?:\([^)]*\))?\s+)?const\s+%s\s*:[^;]*;" % re.escape(it["name"]), rsx.mask(src), re.M)
+            if not cm:
+                raise Undecided("lost anchor: const %s" % it["name"])
+            parts.append(re.sub(r"^[ \t]*(pub(\([^)]*\))?\s+)?", "pub ", src[cm.start():cm.end()]) + "\n")
         elif it["kind"] == "verbatim":
             parts.append(it["text"])
         elif it["kind"] == "index_impl_check":
